@@ -637,6 +637,60 @@ pub fn value_sweep(r: &mut Rep, port: u16, k: u32) {
     width!(u32, 32);
 }
 
+// Call sites that keep a condition alive in the arithmetic flags across a port access (the port wrappers promise to leave the
+// arithmetic flags alone): decrement, access, then branch on "counter reached zero".
+#[inline(never)]
+fn flag_site_expired(out: &mut [u64; 2]) {
+    unsafe { core::ptr::write_volatile(&mut out[1], 0xaaaa) };
+}
+macro_rules! flag_site {
+    ($name:ident, |$p:ident, $x:ident| $body:expr) => {
+        #[inline(never)]
+        fn $name(counter: &mut u64, $p: u16, $x: u64) -> (u64, u64) {
+            *counter -= 1;
+            let zero = *counter == 0;
+            let v: u64 = unsafe { $body };
+            let mut out = [0u64; 2];
+            if zero {
+                unsafe { core::ptr::write_volatile(&mut out[0], v) };
+                flag_site_expired(&mut out);
+            } else {
+                unsafe { core::ptr::write_volatile(&mut out[0], v) };
+                unsafe { core::ptr::write_volatile(&mut out[1], 0x5555) };
+            }
+            (unsafe { core::ptr::read_volatile(&out[0]) }, unsafe { core::ptr::read_volatile(&out[1]) })
+        }
+    };
+}
+flag_site!(fl_r8, |p, _x| Port::<u8>::new(p).read() as u64);
+flag_site!(fl_r16, |p, _x| PortReadOnly::<u16>::new(p).read() as u64);
+flag_site!(fl_r32, |p, _x| Port::<u32>::new(p).read() as u64);
+flag_site!(fl_w8, |p, x| { Port::<u8>::new(p).write(x as u8); x });
+flag_site!(fl_w16, |p, x| { PortWriteOnly::<u16>::new(p).write(x as u16); x });
+flag_site!(fl_w32, |p, x| { Port::<u32>::new(p).write(x as u32); x });
+
+fn flag_sites(r: &mut Rep) {
+    let sites: &[(&str, fn(&mut u64, u16, u64) -> (u64, u64))] = &[("Port<u8>::read", fl_r8), ("PortReadOnly<u16>::read", fl_r16), ("Port<u32>::read", fl_r32), ("Port<u8>::write", fl_w8), ("PortWriteOnly<u16>::write", fl_w16), ("Port<u32>::write", fl_w32)];
+    for &(name, f) in sites {
+        for step in [false, true] {
+            for (port, x) in [(0u16, 0u64), (0x3f8, 0xffff_ffff), (0xcf8, 0x8000_0001), (0xffff, 0x80)] {
+                for start in [1u64, 2, 3] {
+                    cpu().port_in = x as u32;
+                    use std::hint::black_box as bb;
+                    let mut counter = bb(start);
+                    let (rv, _) = one(step, || f(&mut counter, bb(port), bb(x)));
+                    r.ev(true);
+                    let want = if start == 1 { 0xaaaa } else { 0x5555 };
+                    if rv.map(|v| v.1) != Ok(want) || counter != start - 1 {
+                        r.viol(&format!("C18|{}|condition-computed-before-the-access-is-wrong-after-it-(arithmetic-flags-not-preserved)", name), &format!("portflags {} {} {:#x} {}", port, step, x, start), &format!("{:x?} expected {:#x}", rv, want));
+                    }
+                }
+            }
+        }
+    }
+    fault_mode_on();
+}
+
 fn repetition(r: &mut Rep) {
     macro_rules! rep {
         ($ty:ty, $bits:expr, $mask:expr) => {{
@@ -670,6 +724,8 @@ pub fn run(a: &Args) {
             port_case(&mut r, t[1].parse().unwrap(), t[4] == "true");
         } else if t[0] == "portaudit" {
             instruction_audit(&mut r);
+        } else if t[0] == "portflags" {
+            flag_sites(&mut r);
         } else if t[0] == "portrepeat" {
             repetition(&mut r);
         } else if t[0] == "portsite" {
@@ -735,6 +791,7 @@ pub fn run(a: &Args) {
     }
     if a.shard == 1 % a.nshards {
         guarded(&mut r, "C18|Port|unexpected-panic", || "portrepeat".into(), |r| repetition(r));
+        guarded(&mut r, "C18|Port|unexpected-panic", || "portflags".into(), |r| flag_sites(r));
     }
     if a.shard == 2 % a.nshards {
         guarded(&mut r, "C18|Port|unexpected-panic", || "portaudit".into(), |r| instruction_audit(r));
